@@ -200,7 +200,7 @@ fn generate_item_parser_call(
                 let mut arrayelements = Vec::new();
                 for arrayidx in 0..*dim {
                     arrayelements.push(generate_item_parser_call(
-                        &quote! {arrayitems[#arrayidx]},
+                        &quote! {arrayitems.get(#arrayidx).unwrap_or_else(|| &a2lfile::GenericIfData::None)},
                         &arraytype.typename,
                         &arraytype.basetype,
                     ));
@@ -237,7 +237,7 @@ fn generate_item_location(item_ident: &TokenStream, basetype: &BaseType) -> Toke
                 let mut arraylocations = Vec::new();
                 for arrayidx in 0..*dim {
                     arraylocations.push(generate_item_location(
-                        &quote! {arrayitems[#arrayidx]},
+                        &quote! {arrayitems.get(#arrayidx).unwrap_or_else(|| &a2lfile::GenericIfData::None)},
                         &arraytype.basetype,
                     ));
                 }
